@@ -5,6 +5,7 @@ from jaxtyping import Float
 from torch import Tensor
 
 from linear_operator.operators._linear_operator import LinearOperator
+from linear_operator.utils.generic import _to_helper
 
 
 class AbstractPermutationLinearOperator(LinearOperator):
@@ -133,6 +134,17 @@ class PermutationLinearOperator(AbstractPermutationLinearOperator):
 
     def _transpose_nonbatch(self: Float[LinearOperator, "*batch M N"]) -> Float[LinearOperator, "*batch N M"]:
         return PermutationLinearOperator(perm=self.inv_perm, inv_perm=self.perm, validate_args=False)
+
+    def to(self: Float[LinearOperator, "*batch M N"], *args, **kwargs) -> Float[LinearOperator, "*batch M N"]:
+        # perm and inv_perm are index tensors: move them, never cast them (the base to() would cast them to the
+        # floating dtype and the constructor would then fail to index with them)
+        device, dtype = _to_helper(*args, **kwargs)
+        res = self.__class__(
+            self.perm.to(device=device), self.inv_perm.to(device=device), validate_args=self._kwargs["validate_args"]
+        )
+        if dtype is not None:
+            res._dtype = dtype
+        return res
 
     def to_sparse(self) -> Tensor:
         """Returns a sparse CSR tensor that represents the PermutationLinearOperator."""
